@@ -44,6 +44,7 @@ class Client:
         self.pristine = {}  # observed, never selected / re-constrained: path -> original value
         self.probes = {}
         self.evals = 0
+        self.pool = []  # forked states: history is a tree ("starting from any trace"), not a line
 
     def probe(self, k, n=1):
         self.probes[k] = self.probes.get(k, 0) + n
@@ -75,6 +76,45 @@ class Client:
                 break
         return out
 
+    def _sig_of(self, tr):
+        return (world.digest(tr), str(jtu.tree_structure(tr)))
+
+    def guard_inputs(self, what, *inputs):
+        """Snapshot of the inputs of an operation; returns a checker to call after the operation:
+        an operation must not modify the trace / constraint map it was given (an older trace is still
+        'any trace' for a later operation)."""
+        before = [self._sig_of(x) for x in inputs]
+
+        def after():
+            for i, x in enumerate(inputs):
+                if self._sig_of(x) != before[i]:
+                    return [V("input_mutated", "operation_leaves_its_inputs_unchanged",
+                              f"{what}: input #{i} ({type(x).__name__}) was modified in place by the operation", op=what)]
+            return []
+
+        return after
+
+    def op_fork(self, op):
+        self.pool.append(dict(tr=self.tr, h=self.h, ch=copy.deepcopy(self.ch), pristine=dict(self.pristine),
+                              sig=self._sig_of(self.tr)))
+        if len(self.pool) > 4:
+            self.pool.pop(0)
+        self.probe("fork")
+        return []
+
+    def op_checkout(self, op):
+        """Resume from an older trace that later operations have since used as their input."""
+        if not self.pool:
+            raise Skip()
+        s = self.pool[op["i"] % len(self.pool)]
+        self.probe("checkout")
+        if self._sig_of(s["tr"]) != s["sig"] or not ref.trees_equal_bits(_f64(gfi.np_choices(s["tr"])), _f64(s["ch"])):
+            return [V("input_mutated", "older_trace_unchanged_by_later_operations",
+                      "a trace kept from earlier in the history changed while later operations ran on its descendants",
+                      op="checkout")]
+        self.tr, self.h, self.ch, self.pristine = s["tr"], s["h"], copy.deepcopy(s["ch"]), dict(s["pristine"])
+        return self.check_state("checkout")
+
     # -------------------------------------------------------------- transitions
 
     def op_init(self, op):
@@ -85,7 +125,12 @@ class Client:
         else:
             rr = ref.run(self.model, self.h, None, rng=np.random.default_rng(op["rseed"]))
             cons = ref.subset(rr.choices, paths)
-            tr, w = gfi.execute(op.get("cfg", "eager"), self.gf.generate, op["key"], gfi.to_jnp(cons), self.h)
+            x = gfi.to_jnp(cons)
+            unchanged = self.guard_inputs("generate", x)
+            tr, w = gfi.execute(op.get("cfg", "eager"), self.gf.generate, op["key"], x, self.h)
+            mut = unchanged()
+            if mut:
+                return mut
             self.pristine = {p: np.asarray(ref.get_path(cons, p)) for p in paths if ref.get_path(cons, p) is not None}
         self.adopt(tr, self.h)
         self.probe("init_" + op["how"])
@@ -113,8 +158,9 @@ class Client:
             f = lambda tr, x, h: tr.update(x)
         else:
             f = lambda tr, x, h: self.gf.update(tr, x, h)
+        unchanged = self.guard_inputs("update", self.tr, x)
         tr2, w, discard = gfi.execute_det(cfg, f, self.tr, x, h_new)
-        viol = []
+        viol = unchanged()
         switch = r_old.checks != r_new.checks
         self.probe("update")
         self.probe("update_" + api)
@@ -186,11 +232,15 @@ class Client:
         r_old = self.ref_now()
         sel_obj = selections.build(s)
         script = None
+        unchanged = self.guard_inputs("regenerate", self.tr)
         if cfg == "scripted":
             script = gfi.RefScript(op["key"])
             (tr2, w, discard), log = run_scripted(self.gf.regenerate, script, self.tr, sel_obj, h_new)
         else:
             tr2, w, discard = gfi.execute(cfg, self.gf.regenerate, op["key"], self.tr, sel_obj, h_new)
+        mut = unchanged()
+        if mut:
+            return mut
         self.probe("regenerate")
         self.probe("regen_" + ("empty" if not S else "full" if S == set(self.paths) else "partial"))
         for k in progs.combinators(model):
@@ -299,7 +349,11 @@ class Client:
         else:
             k = lambda tr: hmc(tr, sel_obj, op["step"], op["n"])
         cfg = op.get("cfg", "eager")
+        unchanged = self.guard_inputs(kind, self.tr)
         tr2 = gfi.execute(cfg, k, op["key"], self.tr)
+        mut = unchanged()
+        if mut:
+            return mut
         self.probe(kind)
         ch2 = gfi.np_choices(tr2)
         moved = not ref.trees_equal_bits(_f64(self.ch), _f64(ch2))
@@ -422,6 +476,10 @@ class Client:
             return self.op_vectorise(op)
         if k == "telescope":
             return self.op_telescope(op)
+        if k == "fork":
+            return self.op_fork(op)
+        if k == "checkout":
+            return self.op_checkout(op)
         raise ValueError(k)
 
 
